@@ -44,6 +44,11 @@ def Int_BigInt (a : Int) : Int := a
 def Int_Neg (a : Int) : Int := -a
 def Int_ToLegacyDec (a : Int) : Dec := Dec.ofInt a
 
+/-! ### int64 (Go's machine arithmetic wraps) -/
+def I64_wrap (x : Int) : Int := (x + 9223372036854775808).emod 18446744073709551616 - 9223372036854775808
+def I64_Add (a b : Int) : Int := I64_wrap (a + b)
+def I64_Sub (a b : Int) : Int := I64_wrap (a - b)
+
 /-! ### sdkmath.LegacyDec -/
 def LegacyZeroDec : Dec := Dec.zero
 def LegacyOneDec : Dec := Dec.one
@@ -109,6 +114,21 @@ def Coin_IsPositive (c : Coin) : Bool := decide (0 < c.amount)
 def Coin_IsZero (c : Coin) : Bool := decide (c.amount = 0)
 def Coin_IsNegative (c : Coin) : Bool := decide (c.amount < 0)
 def Coin_IsValid (c : Coin) : Bool := ValidateDenom c.denom && decide (0 ≤ c.amount)
+/-- `Coin.Add`: panics on differing denoms (and beyond 256 bits) -/
+def Coin_Add (a b : Coin) : Option Coin :=
+  if a.denom = b.denom then (I256.add a.amount b.amount).map fun x => ⟨a.denom, x⟩ else none
+/-- `Coin.Sub`: panics on differing denoms and on a negative result -/
+def Coin_Sub (a b : Coin) : Option Coin :=
+  if a.denom = b.denom then
+    match I256.sub a.amount b.amount with
+    | some x => if x < 0 then none else some ⟨a.denom, x⟩
+    | none => none
+  else none
+/-- `Coin.IsLT` / `IsGTE` / `IsLTE`: panic on differing denoms -/
+def Coin_IsLT (a b : Coin) : Option Bool := if a.denom = b.denom then some (decide (a.amount < b.amount)) else none
+def Coin_IsGTE (a b : Coin) : Option Bool := if a.denom = b.denom then some (decide (b.amount ≤ a.amount)) else none
+def Coin_IsLTE (a b : Coin) : Option Bool := if a.denom = b.denom then some (decide (a.amount ≤ b.amount)) else none
+
 /-- `sdk.NewCoin`: panics on an invalid denom or a negative amount -/
 def NewCoin (d : String) (a : Int) : Option Coin :=
   if ValidateDenom d && decide (0 ≤ a) then some ⟨d, a⟩ else none
